@@ -306,6 +306,38 @@ fn resolve(arg: i64, n: usize) -> usize {
     n - 1 - ((arg.unsigned_abs() as usize >> 1) % n)
 }
 
+/// how to build a copy of a handle's diagram in a brand-new builder
+#[derive(Clone)]
+enum BRecipe {
+    /// the canonical diagram of a function: rebuilt from its truth table
+    Tt(TT),
+    /// smooth(inner, n): not a reduced diagram, cannot be rebuilt from a truth table
+    Smooth(Box<BRecipe>),
+    Child(Box<BRecipe>, bool),
+    Neg(Box<BRecipe>),
+}
+
+fn build_fresh(b: &'static RobddBuilder<'static, AllIteTable<BPtr>>, r: &BRecipe, order: &[usize], n: usize) -> BPtr {
+    match r {
+        BRecipe::Tt(t) => rebuild_bdd(b, *t, order, &mut BTreeMap::new()),
+        BRecipe::Smooth(x) => {
+            let p = build_fresh(b, x, order, n);
+            b.smooth(p, n)
+        }
+        BRecipe::Child(x, hi) => {
+            let p = build_fresh(b, x, order, n);
+            if p.is_const() {
+                p
+            } else if *hi {
+                p.high()
+            } else {
+                p.low()
+            }
+        }
+        BRecipe::Neg(x) => build_fresh(b, x, order, n).neg(),
+    }
+}
+
 fn run_bdd(plan: &Plan, ctx: &mut Ctx) -> R {
     let n = plan.get("nvars").clamp(1, 7) as usize;
     let perm = perm_from_index(n, plan.get("order_idx") as u64);
@@ -316,49 +348,81 @@ fn run_bdd(plan: &Plan, ctx: &mut Ctx) -> R {
     let cached_map = create_semantic_hash_map::<{ primes::U64_LARGEST }>(n);
     let mut pool: Vec<BPtr> = Vec::new();
     let mut tts: Vec<TT> = Vec::new();
+    let mut recipes: Vec<BRecipe> = Vec::new();
     let mut nq = 0u64;
     let mut kinds_seen = 0u32;
+    let mut smoothed_queries = 0u64;
 
     for (i, op) in plan.ops.iter().enumerate() {
         ctx.step = i;
         ctx.ops += 1;
         ctx.cur_prop = "C10";
         let np = pool.len();
-        let kind = if np == 0 && op.k != S_VAR { S_VAR } else { op.k };
+        let mut kind = if np == 0 && op.k != S_VAR { S_VAR } else { op.k };
+        // and/or/xor/ite are only issued on reduced diagrams (a smoothed diagram is not one)
+        if matches!(kind, S_AND | S_OR | S_XOR | S_ITE) {
+            let nops = if kind == S_ITE { 3 } else { 2 };
+            if (0..nops).any(|j| !matches!(recipes[resolve(op.a[j], np)], BRecipe::Tt(_))) {
+                kind = S_CHILD;
+            }
+        }
         match kind {
             S_VAR | S_NEG | S_AND | S_OR | S_XOR | S_ITE | S_CHILD => {
                 let g = |j: usize| resolve(op.a[j], np);
-                let (p, t) = match kind {
+                let (p, t, r) = match kind {
                     S_VAR => {
                         let v = op.a[0].unsigned_abs() as usize % n;
                         let pol = op.a[3] & 1 == 1;
-                        (b.var(VarLabel::new(v as u64), pol), tt::lit(v, pol))
+                        (b.var(VarLabel::new(v as u64), pol), tt::lit(v, pol), BRecipe::Tt(tt::lit(v, pol)))
                     }
-                    S_NEG => (b.negate(pool[g(0)]), !tts[g(0)]),
-                    S_AND => (b.and(pool[g(0)], pool[g(1)]), tts[g(0)] & tts[g(1)]),
-                    S_OR => (b.or(pool[g(0)], pool[g(1)]), tts[g(0)] | tts[g(1)]),
-                    S_XOR => (b.xor(pool[g(0)], pool[g(1)]), tts[g(0)] ^ tts[g(1)]),
-                    S_ITE => (b.ite(pool[g(0)], pool[g(1)], pool[g(2)]), tt::ite(tts[g(0)], tts[g(1)], tts[g(2)])),
+                    S_NEG => {
+                        let r = match &recipes[g(0)] {
+                            BRecipe::Tt(t) => BRecipe::Tt(!*t),
+                            other => BRecipe::Neg(Box::new(other.clone())),
+                        };
+                        (b.negate(pool[g(0)]), !tts[g(0)], r)
+                    }
+                    S_AND => (b.and(pool[g(0)], pool[g(1)]), tts[g(0)] & tts[g(1)], BRecipe::Tt(tts[g(0)] & tts[g(1)])),
+                    S_OR => (b.or(pool[g(0)], pool[g(1)]), tts[g(0)] | tts[g(1)], BRecipe::Tt(tts[g(0)] | tts[g(1)])),
+                    S_XOR => (b.xor(pool[g(0)], pool[g(1)]), tts[g(0)] ^ tts[g(1)], BRecipe::Tt(tts[g(0)] ^ tts[g(1)])),
+                    S_ITE => {
+                        let t = tt::ite(tts[g(0)], tts[g(1)], tts[g(2)]);
+                        (b.ite(pool[g(0)], pool[g(1)], pool[g(2)]), t, BRecipe::Tt(t))
+                    }
                     _ => {
                         // a sub-diagram of an existing diagram (shares all its nodes)
                         let h = pool[g(0)];
                         if h.is_const() {
-                            (h, tts[g(0)])
+                            (h, tts[g(0)], recipes[g(0)].clone())
                         } else {
-                            let c = if op.a[3] & 1 == 1 { h.high() } else { h.low() };
+                            let hi = op.a[3] & 1 == 1;
+                            let c = if hi { h.high() } else { h.low() };
                             let t = wb::walk_raw(c, &mut BTreeMap::new());
-                            (c, t)
+                            let r = match &recipes[g(0)] {
+                                BRecipe::Tt(_) => BRecipe::Tt(t),
+                                other => BRecipe::Child(Box::new(other.clone()), hi),
+                            };
+                            (c, t, r)
                         }
                     }
                 };
                 pool.push(p);
                 tts.push(t);
+                recipes.push(r);
                 ctx.ev(100 + kind as u64, &[wb::addr(p) as u64, p.is_neg() as u64, tt::lo(t), tt::hi(t)]);
                 ctx.note(|| format!("[{i}] c{} h{} = setup#{kind} -> {}{:#x} tt={}", op.c, pool.len() - 1, if p.is_neg() { "~" } else { "" }, wb::addr(p), tt::show(t)));
             }
             Q => {
-                let q = op.a[0].rem_euclid(NQ as i64);
+                let mut q = op.a[0].rem_euclid(NQ as i64);
                 let h = resolve(op.a[1], np);
+                let plain = matches!(recipes[h], BRecipe::Tt(_));
+                if !plain {
+                    // smoothed (non-reduced) diagrams: numeric queries only
+                    if matches!(q, Q_SMOOTH | Q_CONDITION | Q_CONDITION_MODEL) {
+                        q = Q_WMC_REAL;
+                    }
+                    smoothed_queries += 1;
+                }
                 let (a1, a2) = (op.a[2], op.a[3]);
                 let p = pool[h];
                 // ---- on the shared builder
@@ -370,17 +434,26 @@ fn run_bdd(plan: &Plan, ctx: &mut Ctx) -> R {
                 rsdd::verif::set_knobs(Some(64), None);
                 let was = rsdd::verif::set_faults_enabled(false);
                 let fresh: &'static RobddBuilder<'static, AllIteTable<BPtr>> = Box::leak(Box::new(RobddBuilder::new(order.clone())));
-                let fp = rebuild_bdd(fresh, tts[h], &perm, &mut BTreeMap::new());
+                let fp = build_fresh(fresh, &recipes[h], &perm, n);
                 let fresh_map = create_semantic_hash_map::<{ primes::U64_LARGEST }>(n);
                 let (want, fdiag) = bdd_query(fresh, fp, q, a1, a2, &w, n, &fresh_map);
                 rsdd::verif::set_faults_enabled(was);
                 let tc = plan.get_or("table_cap", 0);
                 rsdd::verif::set_knobs(if tc == 0 { None } else { Some(tc as usize) }, None);
                 ctx.ev(100 + Q as u64, &[q as u64, h as u64, got.first().copied().unwrap_or(0), got.len() as u64]);
-                ctx.note(|| format!("[{i}] c{} {}(h{h}, {a1}, {a2}) = {:x?} (fresh copy: {:x?})", op.c, QNAMES[q as usize], got, want));
+                ctx.note(|| format!("[{i}] c{} {}(h{h}{}, {a1}, {a2}) = {:x?} (fresh copy: {:x?})", op.c, QNAMES[q as usize], if plain { "" } else { " [smoothed]" }, got, want));
                 ctx.check("C10", "query-answer-differs-from-fresh-copy", got == want, || {
                     format!("{}(h{h}) on the shared builder = {:x?}; the same query on a freshly built copy of that diagram = {:x?}", QNAMES[q as usize], got, want)
                 })?;
+                if q == Q_SMOOTH {
+                    // the smoothed diagram joins the pool: later queries run on it and on its sub-diagrams
+                    let r = b.smooth(p, n);
+                    scratch_monitor_bdd(ctx, b, "smooth")?;
+                    let t = wb::walk_raw(r, &mut BTreeMap::new());
+                    pool.push(r);
+                    tts.push(t);
+                    recipes.push(BRecipe::Smooth(Box::new(recipes[h].clone())));
+                }
                 if let (Some(d), Some(fd)) = (diag, fdiag) {
                     let (t1, t2) = (wb::walk_raw(d, &mut BTreeMap::new()), wb::walk_raw(fd, &mut BTreeMap::new()));
                     ctx.check("C10", "query-answer-differs-from-fresh-copy", t1 == t2, || {
@@ -389,12 +462,14 @@ fn run_bdd(plan: &Plan, ctx: &mut Ctx) -> R {
                     // conditioned diagrams join the pool: later queries run on them too
                     pool.push(d);
                     tts.push(t1);
+                    recipes.push(BRecipe::Tt(t1));
                 }
             }
             _ => {}
         }
     }
     ctx.count("queries", nq);
+    ctx.count("queries-on-smoothed-diagrams", smoothed_queries);
     ctx.nontrivial = nq >= 2 && kinds_seen.count_ones() >= 2 && pool.iter().any(|p| !p.is_const());
     ctx.states.push(kinds_seen as u64);
     Ok(())
